@@ -309,6 +309,29 @@ def check(ctx, rep):
     rep.ob('for.increment-in-place', 'iterate_loop: counter_view.iadd(step)',
            len(incs) == 1 and norm(incs[0].func.value) == 'counter_view' and [norm(a) for a in incs[0].args] == ['step'],
            repr([short(i) for i in incs]), ctx.where(it))
+    # iadd adds the bytes of its operand: the step on the loop stack has the type of the counter, whatever was written
+    # after STEP (a single-precision 1 added bytewise to an integer counter adds 0)
+    fo = ctx.fn(INTERP + ':Interpreter.for_')
+    kinds = []
+    for a in own_nodes(fo):
+        if isinstance(a, ast.Assign) and norm(a.targets[0]) == 'step':
+            v = a.value
+            while isinstance(v, ast.Call) and isinstance(v.func, ast.Attribute) and v.func.attr == 'clone' and not v.args:
+                v = v.func.value
+            t = norm(v)
+            if t == 'next(args)':
+                kinds.append(('raw', a))
+            elif isinstance(v, ast.Call) and norm(v.func) == 'values.to_type' and len(v.args) == 2 and norm(v.args[0]) in ('vartype', 'varname[-1:]'):
+                kinds.append(('typed', a))
+            elif isinstance(v, ast.Call) and norm(v.func) == 'self._values.from_value' and len(v.args) == 2 and norm(v.args[1]) in ('vartype', 'varname[-1:]'):
+                kinds.append(('one', a))
+            else:
+                kinds.append(('other', a))
+    pushed = [c for c in own_nodes(fo) if isinstance(c, ast.Call) and norm(c.func) == 'self.for_stack.append' and 'step' in [norm(e) for e in getattr(c.args[0], 'elts', [])]]
+    rep.floor('for.step-has-the-counter-type', len(pushed) + len(kinds), 3, 'step definitions and the frame that takes the step')
+    bad = [short(a, 60) for k, a in kinds if k == 'other']
+    rep.ob('for.step-has-the-counter-type', 'for_: the step stored in the loop frame is converted to the type of the counter', not bad and any(k == 'typed' for k, _ in kinds),
+           'step defined by %s: iterate_loop adds its bytes to the counter as if it had the counter type' % (bad or 'no conversion'), ctx.where(fo))
     ia = ctx.fn(N + ':Integer.iadd')
     fl = ctx.flow(ia)
     ovf = [r for r, c in ctx.raises_in(ia) if c == 'OVERFLOW']
@@ -398,6 +421,9 @@ def variants(ctx):
            in_fn('Interpreter.iterate_loop', lambda fn: mu.replace_expr(fn, mu.text_is('self._scalars.view(varname2)'),
                                                                         'self._scalars.view(varname2).clone()')),
            expect='for.counter'),
+        Va('for-step-keeps-its-own-type', 'break', INTERP,
+           in_fn('Interpreter.for_', lambda fn: mu.replace_stmt(fn, mu.text_is('step = values.to_type(vartype, step).clone()'), 'step = values.pass_number(step).clone()')),
+           expect='for.step-has-the-counter-type'),
         Va('iadd-carry-after-test', 'break', N, in_fn('Integer.iadd', _carry_after_test), expect='for.iadd-test-sees-carried-sum'),
         Va('iadd-overflow-dropped', 'break', N,
            in_fn('Integer.iadd', lambda fn: mu.remove_stmt(fn, lambda st: isinstance(st, ast.If) and 'OVERFLOW' in norm(st))),
